@@ -237,7 +237,7 @@ def run(ctx):
     for e in sub.errors:
         ctx.error("shared C10 rules: " + e)
     for o in sub.obligations:
-        if o.rule == "C10.R4":
+        if o.rule in ("C10.R4", "C10.R6"):       # ... and is a fresh wrapper per call (R6): units a failed alternative left in a reused wrapper would be read by the next one
             ctx.ob("C09.R2", o.where, o.ok, o.what, key=o.key, loc=o.loc, detail=o.detail)
     # R6: generated templates (engine T)
     try:
